@@ -7,6 +7,18 @@ VERIF = os.path.dirname(os.path.dirname(os.path.abspath(__file__)))
 
 # pid -> (category, technique, text, note, design_ref)
 CLAIMS = {
+    'C01': ('exploration',
+            'bounded exhaustive string x position enumeration executed by the real GNU make + /bin/sh against a recording stub toolchain',
+            'Every string over the stated alphabets (all single printable characters incl. TAB and 3 non-ASCII code '
+            'points, all pairs, class-representative triples, quote-alphabet strings up to length 6 in the thorough '
+            'tier) is placed in every argument position of a generated build script (command argument/word/'
+            'environment, build_step, test, test_driver children, compile/link/global options, define values, include '
+            'directories); bfg9000 generates the Makefile, the real make and sh run it, and the stub toolchain records '
+            'the argv/environ each process received; the oracle is identity. Exhaustive within the bounds; batches '
+            'only raise suspicion, singletons decide, candidates are re-confirmed twice through the CLI.',
+            'trusted: the recording stub (stubs/recorder.c), GNU make 4.3 and dash as the downstream interpreters; '
+            'command words that sh classifies as builtins are excluded at run time',
+            'DESIGN.md §6 C01'),
     'C12': ('exploration',
             'bounded exhaustive input-space enumeration + closure exploration on the real Path classes, posixpath/ntpath reference',
             'Every path string of <=3 (quick) / <=4 (thorough) components over a class-representative component '
